@@ -82,6 +82,101 @@ func (tt *taskTable) isTable(v ssa.Value) bool {
 	return ok && fa.Field < s.NumFields() && s.Field(fa.Field) == tt.field
 }
 
+// wrapperCall: the call is a method of the table's own (named map) type, applied to the table.
+func (tt *taskTable) wrapperCall(call ssa.CallInstruction) *ssa.Function {
+	h := call.Common().StaticCallee()
+	if h == nil || h.Blocks == nil || h.Signature.Recv() == nil || len(h.Params) == 0 {
+		return nil
+	}
+	if !types.Identical(h.Signature.Recv().Type(), tt.field.Type()) {
+		return nil
+	}
+	if len(call.Common().Args) == 0 || !tt.isTable(call.Common().Args[0]) {
+		return nil
+	}
+	return h
+}
+
+// isDelete: a removal from the task table: the builtin on the table, or a method of the
+// table's type that deletes from its receiver.
+func (tt *taskTable) isDelete(in ssa.Instruction) bool {
+	call, ok := in.(ssa.CallInstruction)
+	if !ok {
+		return false
+	}
+	if b, ok := call.Common().Value.(*ssa.Builtin); ok && b.Name() == "delete" && len(call.Common().Args) == 2 && tt.isTable(call.Common().Args[0]) {
+		return true
+	}
+	h := tt.wrapperCall(call)
+	if h == nil {
+		return false
+	}
+	found := false
+	eachInstr(h, func(x ssa.Instruction) {
+		if c2, ok := x.(*ssa.Call); ok {
+			if b, ok := c2.Call.Value.(*ssa.Builtin); ok && b.Name() == "delete" && len(c2.Call.Args) == 2 && c2.Call.Args[0] == ssa.Value(h.Params[0]) {
+				found = true
+			}
+		}
+	})
+	return found
+}
+
+// wrapperAssign: a method of the table's type that stores one of its parameters under a key;
+// the state assigned is the constant the caller passes.
+func (tt *taskTable) wrapperAssign(call ssa.CallInstruction) (int64, bool, bool) {
+	h := tt.wrapperCall(call)
+	if h == nil {
+		return 0, false, false
+	}
+	idx := -1
+	eachInstr(h, func(x ssa.Instruction) {
+		if mu, ok := x.(*ssa.MapUpdate); ok && mu.Map == ssa.Value(h.Params[0]) {
+			for i, p := range h.Params {
+				if mu.Value == ssa.Value(p) {
+					idx = i
+				}
+			}
+		}
+	})
+	if idx < 0 || idx >= len(call.Common().Args) {
+		return 0, false, false
+	}
+	k, isConst := constInt(call.Common().Args[idx])
+	return k, isConst, true
+}
+
+// wrapperLookup: a method of the table's type that looks a key up in its receiver; reports
+// whether the state found is looked at, and the states it is compared with.
+func (tt *taskTable) wrapperLookup(call ssa.CallInstruction) (valueUsed bool, cmp []int64, ok bool) {
+	h := tt.wrapperCall(call)
+	if h == nil {
+		return false, nil, false
+	}
+	eachInstr(h, func(x ssa.Instruction) {
+		lk, isLk := x.(*ssa.Lookup)
+		if !isLk || lk.X != ssa.Value(h.Params[0]) || !lk.CommaOk {
+			return
+		}
+		ok = true
+		for _, r := range *lk.Referrers() {
+			if ex, isEx := r.(*ssa.Extract); isEx && ex.Index == 0 && ex.Referrers() != nil {
+				for _, u := range *ex.Referrers() {
+					if bo, isBo := u.(*ssa.BinOp); isBo {
+						valueUsed = true
+						for _, o := range []ssa.Value{bo.X, bo.Y} {
+							if k, isK := constInt(o); isK {
+								cmp = append(cmp, k)
+							}
+						}
+					}
+				}
+			}
+		}
+	})
+	return
+}
+
 // deletesTask: the call reaches (within depth) a delete on the task table.
 func (c *Ctx) reachesTaskDelete(tt *taskTable, f *ssa.Function, depth int, seen map[*ssa.Function]bool) bool {
 	if f == nil || f.Blocks == nil || seen[f] || depth > 4 {
@@ -94,7 +189,7 @@ func (c *Ctx) reachesTaskDelete(tt *taskTable, f *ssa.Function, depth int, seen 
 		if !ok || found {
 			return
 		}
-		if b, ok := call.Common().Value.(*ssa.Builtin); ok && b.Name() == "delete" && tt.isTable(call.Common().Args[0]) {
+		if tt.isDelete(in) {
 			found = true
 			return
 		}
@@ -144,8 +239,16 @@ func rulesRepl(c *Ctx) {
 					}
 				}
 			case *ssa.Call:
-				if b, ok := x.Call.Value.(*ssa.Builtin); ok && b.Name() == "delete" && tt.isTable(x.Call.Args[0]) {
+				if tt.isDelete(x) {
 					deletes = append(deletes, x)
+				}
+				// a state assigned through a method of the table's type
+				if st, isConst, ok := tt.wrapperAssign(x); ok {
+					if isConst {
+						assigns = append(assigns, assign{st, x, f})
+					} else {
+						c.undecided("Q1", fnKey(f)+"→tasks[]=non-constant", x.Pos(), "a task state is assigned from a non-constant value")
+					}
 				}
 			}
 		})
@@ -180,6 +283,26 @@ func rulesRepl(c *Ctx) {
 	c.floor("Q1", "enqueue functions", len(enq), 1)
 	blocked := map[int64]bool{}
 	for _, f := range enq {
+		// a membership test made through a method of the table's type
+		eachCall(f, func(call ssa.CallInstruction) {
+			valueUsed, cmpStates, ok := tt.wrapperLookup(call)
+			if !ok {
+				return
+			}
+			for st := range tt.states {
+				ex := false
+				if valueUsed {
+					for _, k := range cmpStates {
+						if k == st {
+							ex = true
+						}
+					}
+				}
+				if !ex {
+					blocked[st] = true
+				}
+			}
+		})
 		eachInstr(f, func(in ssa.Instruction) {
 			lk, ok := in.(*ssa.Lookup)
 			if !ok || !tt.isTable(lk.X) {
@@ -317,7 +440,7 @@ func rulesRepl(c *Ctx) {
 					if !ok {
 						return false
 					}
-					if b, ok := cl.Common().Value.(*ssa.Builtin); ok && b.Name() == "delete" && tt.isTable(cl.Common().Args[0]) {
+					if tt.isDelete(in) {
 						return true
 					}
 					if h := cl.Common().StaticCallee(); h != nil && h.Pkg == w.Pkg {
@@ -362,7 +485,7 @@ func rulesRepl(c *Ctx) {
 				if !ok {
 					return
 				}
-				if b, ok := call.Call.Value.(*ssa.Builtin); ok && b.Name() == "delete" && tt.isTable(call.Call.Args[0]) {
+				if tt.isDelete(call) {
 					for _, ft := range factsAt(call.Block()) {
 						if lc, ok := ft.X.(*ssa.Call); ok && ft.Y != nil {
 							if bi, ok := lc.Call.Value.(*ssa.Builtin); ok && bi.Name() == "len" && strings.Contains(nf(lc.Call.Args[0]), "buffer") {
@@ -430,7 +553,7 @@ func rulesRepl(c *Ctx) {
 				if !ok {
 					return false
 				}
-				if b, ok := cl.Common().Value.(*ssa.Builtin); ok && b.Name() == "delete" && tt.isTable(cl.Common().Args[0]) {
+				if tt.isDelete(in) {
 					return true
 				}
 				if h := cl.Common().StaticCallee(); h != nil && h.Pkg == f.Pkg {
@@ -644,6 +767,18 @@ func (c *Ctx) ruleG2() {
 				seenHost[h] = true
 				scope = append(scope, withClosures(h)...)
 			}
+		}
+		// … or by a same-package function the host calls to set the channel up
+		for _, h := range append([]*ssa.Function{}, scope...) {
+			eachCall(h, func(call ssa.CallInstruction) {
+				if _, isGo := call.(*ssa.Go); isGo {
+					return
+				}
+				if g := call.Common().StaticCallee(); g != nil && g.Blocks != nil && g.Pkg == h.Pkg && !seenHost[topLevel(g)] {
+					seenHost[topLevel(g)] = true
+					scope = append(scope, withClosures(topLevel(g))...)
+				}
+			})
 		}
 		for _, g := range scope {
 			if g.Parent() != nil {
